@@ -382,9 +382,11 @@ def _unary_uf(name):
             if isinstance(x, C):
                 raise Inconclusive("%s of complex" % name)
             c = x.const()
+            import math
             if c is not None:
-                import math
                 return S(rat(getattr(math, name)(float(c))))
+            if isinstance(x, S) and x.isinf and isinstance(x.n, Fraction) and x.n != 0 and name in ("atan", "tanh"):
+                return S(rat(getattr(math, name)(float("inf") if x.n > 0 else float("-inf"))))
             return uapply(name, x)
         return T(_ew1(g)(D(a)), dtype=a.dtype)
     return f
@@ -1098,14 +1100,28 @@ def _arange(*a, dtype=None, **k):
 
 
 RANDOM_LOG = []
+RAND_KIND = ["randn"]
+
+
+def _mk_rand(kind):
+    def f(shape, *a, dtype=None, **k):
+        RAND_KIND[0] = kind
+        return _randn(shape, *a, dtype=dtype, **k)
+    return f
+
 
 
 @op("aten.randn.default", "aten.rand.default", "aten.randn_like.default", "aten.rand_like.default",
     "aten.normal_.default", "aten.uniform_.default")
 def _randn(shape, *a, dtype=None, **k):
-    """randomness = an arbitrary value of its type: fresh symbols"""
+    """randomness = an arbitrary value of its type: fresh symbols (real torch values in the concrete
+    translator-validation mode, so that a seeded scenario sees the same numbers as the real run)"""
     if isinstance(shape, torch.Tensor):
         shape = shape.shape
+    ex = Explorer.cur
+    if ex is not None and getattr(ex, "concrete", False):
+        real = (torch.randn if RAND_KIND[0] == "randn" else torch.rand)(tuple(shape), dtype=torch.float64)
+        return T(from_real(real), dtype=FLOAT)
     out = np.empty(tuple(shape), dtype=object)
     for idx in np.ndindex(out.shape):
         v = fresh_real("rnd")
@@ -1862,6 +1878,12 @@ def _qr(A, mode="reduced"):
         R[j, j] = ssqrt(np.dot(v, v))
         Q[:, j] = v / R[j, j]
     return T(Q, dtype=A.dtype), T(R, dtype=A.dtype)
+
+
+for _nm in ("aten.rand.default", "aten.rand_like.default", "aten.uniform_.default"):
+    OPS[_nm] = _mk_rand("rand")
+for _nm in ("aten.randn.default", "aten.randn_like.default", "aten.normal_.default"):
+    OPS[_nm] = _mk_rand("randn")
 
 
 def fresh(name, shape, complex_=False):
